@@ -273,7 +273,7 @@ func ruleOpcodeTables(c *Ctx) {
 	rangeTest := false
 	for _, b := range exf.G.Blocks {
 		if cnd := exf.Cond(b); cnd != nil {
-			if be, ok := ast.Unparen(cnd).(*ast.BinaryExpr); ok && be.Op == token.LEQ && exf.Mentions(be.Y, nil)["pkg/vm/opcode.PUSHINT256"] && exf.Mentions(be.X, nil)["param:op"] {
+			if be, ok := ast.Unparen(cnd).(*ast.BinaryExpr); ok && be.Op == token.LEQ && exf.Mentions(be.Y, nil)["pkg/vm/opcode.PUSHINT256"] && exf.Mentions(be.X, nil)["param#1"] {
 				rangeTest = true
 			}
 		}
@@ -334,7 +334,7 @@ func ruleOpcodeTables(c *Ctx) {
 	}
 	var orphanArms []string
 	for _, arm := range disp {
-		if !armMentions(exf, arm)["param:parameter"] {
+		if !armMentions(exf, arm)["param#2"] {
 			continue
 		}
 		any := false
@@ -406,7 +406,7 @@ func ruleJumpAgreement(c *Ctx) {
 	// targets must be instruction boundaries: the final subset test gates the success exit
 	runGates(c, []GateSpec{{
 		ID: "IsScriptCorrect.ok", Fn: [3]string{"pkg/smartcontract/scparser", "", "IsScriptCorrect"}, Target: "ok-return",
-		Guards: []Guard{{ID: "jumps-subset-of-boundaries", Doc: "recorded jump targets are a subset of instruction boundaries", Alts: [][]string{{"pkg/util/bitfield.(Field).IsSubset", "local:jumps"}}}},
+		Guards: []Guard{{ID: "jumps-subset-of-boundaries", Doc: "recorded jump targets are a subset of instruction boundaries", Alts: [][]string{{"pkg/util/bitfield.(Field).IsSubset"}}}},
 	}})
 	// decoder-shared: the VM context embeds the scparser context (one decoder)
 	vmPk := c.P.Pkg("pkg/vm")
